@@ -21,7 +21,7 @@ def compose_cases(rng, n):
         for _ in range(nc):
             m = [65535, 65535, 65535, 0, rng.below(65536), 65535 ^ (1 << rng.below(4))]
             ch.append("c %d %d" % (rng.choice(m), rng.choice(m)))
-        ops = " ".join(rng.choice(["f", "f", "h"]) for _ in range(rng.below(6)))
+        ops = " ".join(rng.choice(["f", "f", "h", "ft", "ft", "ht"]) for _ in range(rng.below(6)))
         out.append("COMPOSE %s | %s | o %s" % (kind, " | ".join(ch), ops) if ch else "COMPOSE %s | o %s" % (kind, ops))
     return out
 
